@@ -172,6 +172,38 @@ func init() {
 			return []Val{&StoreHandleV{Ghost: "tibc", Prefix: args[2].(*Term), Kind: "client"}}, nil
 		})
 
+	pt := repoModule + "/modules/tibc/core/04-packet/types"
+	reg(pt+"::(Acknowledgement).GetBytes", "proto encoding of the acknowledgement (A-PROTO): errAckBytes(text) for an error response, resAckBytes(result) for a result response; never empty when a response is set; the two families are disjoint",
+		func(e *Engine, st *State, fr *Frame, args []Val, fn *ssa.Function, c *ssa.CallCommon) ([]Val, []*State) {
+			sv, ok := args[0].(*StructV)
+			if !ok {
+				unsupported("GetBytes on %s", valString(args[0]))
+			}
+			e.C.DeclareFun("errAckBytes", []Sort{SStr}, SStr)
+			e.C.DeclareFun("resAckBytes", []Sort{SStr}, SStr)
+			var t string
+			switch r := sv.F[0].(type) {
+			case *IfaceV:
+				if r.Dyn == nil {
+					return []Val{mk(SBytes, "(mkB false str_empty)")}, nil
+				}
+				inner := e.load(st, r.V, nil).(*StructV)
+				switch {
+				case strings.HasSuffix(r.Dyn.String(), "Acknowledgement_Error"):
+					t = "(errAckBytes " + inner.F[0].(*Term).T + ")"
+				case strings.HasSuffix(r.Dyn.String(), "Acknowledgement_Result"):
+					t = "(resAckBytes " + bstrOf(e.toBytesTerm(st, inner.F[0]).T) + ")"
+				default:
+					unsupported("acknowledgement response of type %s", r.Dyn)
+				}
+			default:
+				unsupported("acknowledgement with opaque response")
+			}
+			st.assume("(not (= (slen " + t + ") #x0000000000000000))")
+			st.assume("(bvsgt (slen " + t + ") #x0000000000000000)")
+			return []Val{mk(SBytes, "(mkB false "+t+")")}, nil
+		})
+
 	// ---- event manager (interface EventManagerI)
 	reg("iface:"+sdkTypes+".EventManagerI.EmitEvents", "events' == events ++ evs", func(e *Engine, st *State, fr *Frame, args []Val, fn *ssa.Function, c *ssa.CallCommon) ([]Val, []*State) {
 		e.emit(st, args[1])
